@@ -160,6 +160,9 @@ func runC08(c *Ctx) {
 			}
 		})
 		r.Exactly("R2", "Flush calls in the write function", nFl, 1)
+		// ... and the flush happens for every line: no success return without it (shared with C09.R3) - lines left in
+		// the buffer go out in buffer-sized chunks that end in the middle of a command
+		c.writeCompleteRule("R2", writeFn)
 		// nothing in write modifies what is written: the WriteString operand is param+CRLF (checked above)
 	}
 
